@@ -92,7 +92,8 @@ def run(tier, seed):
             continue
         if rc != 0:
             raise vlib.ToolError("field harness rc=%s: %s" % (rc, err[-400:]))
-        files, n = shard_trace(tp, 5, wd, field)
+        # the 128-bit field costs TLC about ten times as much per event (limb arithmetic on 16-byte operands)
+        files, n = shard_trace(tp, 10 if field == "f128" else 3, wd, field)
         events += n
         log("[harness] %s: %d scenarios (%d boundary-pair, %d random), %d events" % (field, len(scns), len(pairs), len(rnd), n))
         jobs += [(field, f) for f in files]
@@ -101,7 +102,7 @@ def run(tier, seed):
         field, f = job
         return job, vlib.tlc_validate("Trace_Field", "Trace_Field_" + field, f, tag="Trace_Field_" + os.path.basename(f), timeout=3300, xmx="3g")
 
-    for (field, f), rt in vlib.parallel(validate, jobs, max_workers=15):
+    for (field, f), rt in vlib.parallel(validate, jobs, max_workers=16):
         states += rt.distinct
         trans += rt.generated
         if rt.ok:
